@@ -247,7 +247,7 @@ fn check_xlsx(c: &DamagedSheet, obs: &mut Obs) -> Verdict {
 pub struct DamagedTexts { pub files: Vec<(String, String)> }
 
 fn etrade_strategy(_t: Tier) -> BoxedStrategy<DamagedTexts> {
-    (super::c19::scenario_strategy(), proptest::collection::vec((any::<u16>(), any::<u16>(), 0u8..10), 0..6)).prop_map(|(sc, muts)| {
+    (super::c19::scenario_strategy(), proptest::collection::vec((any::<u16>(), any::<u16>(), 0u8..13), 0..6)).prop_map(|(sc, muts)| {
         let mut files = sc.files.clone();
         for (fi, pos, kind) in muts {
             if files.is_empty() { break; }
@@ -265,7 +265,11 @@ fn etrade_strategy(_t: Tier) -> BoxedStrategy<DamagedTexts> {
                 6 => { lines[li] = format!("{} 999999999999999999999999999999.99", lines[li]); }
                 7 => { lines[li] = lines[li].replace('$', ""); }
                 8 => { lines[li] = lines[li].replace("SELL", "SOLD SHORT").replace("Sold", "Bought"); }
-                _ => { files[k].1 = String::new(); continue; }
+                9 => { files[k].1 = String::new(); continue; }
+                // zero quantities and amounts: "Shares Sold (0.0000)", "$0.00", a trade of 0 shares
+                10 => { lines[li] = lines[li].chars().map(|c| if c.is_ascii_digit() { '0' } else { c }).collect(); }
+                11 => { if let Some(j) = lines.iter().position(|l| l.contains("Sold") || l.contains("sold")) { lines[j] = lines[j].chars().map(|c| if c.is_ascii_digit() { '0' } else { c }).collect(); } }
+                _ => { if let Some(j) = lines.iter().position(|l| l.contains("Shares") || l.contains("SHARES") || l.contains("Quantity")) { lines[j] = lines[j].chars().map(|c| if c.is_ascii_digit() { '0' } else { c }).collect(); } }
             }
             files[k].1 = lines.join("\n") + "\n";
         }
